@@ -67,10 +67,14 @@ RefusalCases ==
 RECURSIVE SetToSortedSeq(_)
 SetToSortedSeq(S) == IF S = {} THEN <<>> ELSE LET m == SetMax(S) IN SetToSortedSeq(S \ {m}) \o <<m>>
 KuCases == { Case("csr-ku", Params(SetToSortedSeq(S), <<>>, <<>>, <<>>, DnOne, NoUnsup), <<>>, "ed25519") : S \in SUBSET (0..8) }
+(* key usages and purposes that RFC 5280 4.2.1.12 relates to each other, in every pairing (consistent or not: a request says what it says) *)
+StdEku == {"1.3.6.1.5.5.7.3.1", "1.3.6.1.5.5.7.3.2", "1.3.6.1.5.5.7.3.3", "1.3.6.1.5.5.7.3.4", "1.3.6.1.5.5.7.3.8", "1.3.6.1.5.5.7.3.9", "2.5.29.37.0"}
+KuEkuCases == { Case("csr-ku-eku", Params(ku, san, <<e>>, cu, DnOne, NoUnsup), <<>>, "ed25519") :
+                  ku \in {<<>>, <<0>>, <<1>>, <<2>>, <<4>>, <<5, 6>>, <<1, 2>>}, e \in StdEku, san \in {<<>>, SanSome}, cu \in {<<>>, <<CuA>>} }
 Algs == {"ed25519", "ecdsa-p256-sha256", "ecdsa-p384-sha384", "ecdsa-p521-sha512", "rsa-sha256", "rsa-sha384", "rsa-sha512"}
 AlgCases == { Case("csr-alg", Params(<<0>>, SanSome, <<"1.3.6.1.5.5.7.3.1">>, <<>>, dn, NoUnsup), at, alg) :
                 alg \in Algs, dn \in {DnOne, DnMulti}, at \in {<<>>, <<A2, A1>>} }
-Cases == PresenceCases \cup RefusalCases \cup KuCases \cup AlgCases
+Cases == PresenceCases \cup RefusalCases \cup KuCases \cup KuEkuCases \cup AlgCases
 
 KeyRec(alg) == [h |-> "kR", alg |-> alg, spki |-> "spki-kR", raw |-> "raw-kR"]
 Args(k) == [params |-> k.params, key |-> KeyRec(k.alg), attrs |-> k.attrs, signerFails |-> FALSE]
